@@ -34,15 +34,6 @@ Assumed('<factory>', 'RequestFactory.__call__', {'self': TObj('RequestFactory'),
         ensures=['result._url == url', 'result._url_info == url_parse(url)', 'truthy(result.method)', 'truthy(result.version)', 'not ("Host" in result.fields.map)', 'not ("Authorization" in result.fields.map)',
                  'not ("Cookie" in result.fields.map)', 'result.password is None', 'result.username is None'],
         raises={'ValueError': []}, note='request_factory = wpull.protocol.http.request.Request: a fresh request for the URL')
-Assumed('wpull/protocol/http/request.py', 'Request.prepare_for_send', {'self': TObj('HTTPRequest'), 'full_url': TBool()}, name='HTTPRequest.prepare_for_send',
-        defaults={'full_url': False}, requires=['self._url_info is not None', 'truthy(self._url)', 'truthy(self.method)', 'truthy(self.version)'], modifies=['self.fields.map', 'self.fields.count', 'self.resource_path'],
-        ensures=['"Host" in self.fields.map',
-                 'implies(not ("Host" in old(self.fields.map)), self.fields.map["Host"] == hostname_with_port(self._url_info))',
-                 'implies(not ("Host" in old(self.fields.map)), self.fields.count["Host"] == 1)',
-                 'implies(not ("Authorization" in old(self.fields.map)), not ("Authorization" in self.fields.map)) and implies(not ("Cookie" in old(self.fields.map)), not ("Cookie" in self.fields.map))'],
-        raises={'AssertionError': []}, note='verified against its body under C16 (specs/request.py)')
-_hwp = z3.Function('hostname_with_port', z3.IntSort(), z3.StringSort())
-SPECFUNS['hostname_with_port'] = lambda ex, st, u: VStr(_hwp(u.term))
 _hoh = z3.Function('host_of_hwp', z3.StringSort(), z3.StringSort())
 SPECFUNS['host_of_hwp'] = lambda ex, st, s_: VStr(_hoh(s_.term))
 Assumed('wpull/url.py', 'URLInfo.hostname_with_port', {'self': TObj('URLInfo')}, name='URLInfo.hostname_with_port@call', ret=TStr(), is_property=True,
@@ -64,9 +55,10 @@ Contract(W, 'WebSession._process_redirect', S, prop='C18',
     modifies=['self._next_request', 'all_of("NameValueRecord.map")', 'all_of("NameValueRecord.count")', 'all_of("HTTPRequest.resource_path")',
               'all_of("HTTPRequest._url")', 'all_of("HTTPRequest._url_info")'],
     ensures=[('installed', 'self._next_request is not None'), ('has-url', 'self._next_request._url_info is not None'),
+             ('connectable', 'truthy(self._next_request._url_info.hostname) and self._next_request._url_info.port is not None', {'C09'}),
              ('within-limit', '%s <= %s' % (R, MAX)), ('original-keeps-its-url', 'self._original_request._url_info == old(self._original_request._url_info)'),
              ('location', 'truthy(old(self._redirect_tracker._response.fields.get("location")))')],
-    raises={'ProtocolError': [], 'AssertionError': []})
+    raises={'ProtocolError': [], 'AssertionError': []}, replay='websession:replay_hostile_redirect', escape_props={'C18', 'C09'})
 Contract(W, 'WebSession._process_authentication', dict(S, response=TObj('HTTPResponse')), prop='C18',
     requires=['self._next_request is not None', 'self._next_request._url_info is not None'],
     modifies=['self._next_request', 'self._loop_type', 'self._hostnames_with_auth', 'self.g_auth_retries', 'all_of("NameValueRecord.map")', 'all_of("NameValueRecord.count")'],
@@ -75,7 +67,7 @@ Contract(W, 'WebSession._process_authentication', dict(S, response=TObj('HTTPRes
              ('retry', 'implies(old(self._loop_type) != {a}, self._next_request == old(self._next_request) and self._loop_type == {a})'.format(a=AUTH)),
              ('ghost', 'self.g_auth_retries == old(self.g_auth_retries) + (0 if old(self._loop_type) == %s else 1)' % AUTH)],
     raises={'AssertionError': []})
-PR_REQ = ['self._next_request is not None', 'self._next_request._url_info is not None', 'response.request is not None',
+PR_REQ = ['self._next_request is not None', 'self._next_request._url_info is not None', 'truthy(self._next_request._url_info.hostname) and self._next_request._url_info.port is not None', 'response.request is not None',
           'response.request._url_info is not None', 'response.status_code is not None', J, '%s >= 0' % R,
           'self.g_auth_retries >= 0', 'self.g_auth_retries <= 1', 'truthy(self._original_request.method)', 'truthy(self._original_request.version)', 'self._original_request._url_info is not None', 'implies(self.g_auth_retries >= 1, self._loop_type == %s)' % AUTH]
 # (the requires above is implied by the visit invariant because _next_request is not None here)
@@ -89,10 +81,11 @@ Contract(W, 'WebSession._process_response', dict(S, response=TObj('HTTPResponse'
               '(self._loop_type == {a} and old(self._loop_type) != {a} and response.status_code == 401 and {r} >= old({r}) and {r} <= old({r}) + 1))'
               .format(r=R, m=MAX, rd=REDIR, a=AUTH)),
              ('J', J), ('next-has-url', 'implies(self._next_request is not None, self._next_request._url_info is not None)'),
+             ('next-is-connectable', 'implies(self._next_request is not None, truthy(self._next_request._url_info.hostname) and self._next_request._url_info.port is not None)', {'C09'}),
              ('variant', 'implies(self._next_request is not None, %s < old(%s) and %s >= 0)' % (M, M, M)),
              ('counter-monotone', '%s >= old(%s)' % (R, R)), ('original-keeps-its-url', 'self._original_request._url_info == old(self._original_request._url_info)'),
              # the literal clause of the statement: at most ONE authentication retry per visit
              ('ghost-nonneg', 'self.g_auth_retries >= 0'),
              ('pending-means-intermediate', 'implies(self._next_request is not None, truthy(self._redirect_tracker.is_redirect()) or self._loop_type == %s)' % AUTH),
              ('auth-once', 'self.g_auth_retries <= 1 and implies(self.g_auth_retries >= 1, self._loop_type == %s or self._next_request is None)' % AUTH)],
-    raises={'ProtocolError': ['%s >= old(%s)' % (R, R)], 'AssertionError': []}, replay='websession:replay_auth_once')
+    raises={'ProtocolError': ['%s >= old(%s)' % (R, R)], 'AssertionError': []}, replay='websession:replay_auth_once', escape_props={'C18', 'C09'})
